@@ -66,6 +66,11 @@ func c20Body(key string, big bool) []byte {
 	return b[:n]
 }
 
+var (
+	c20LateMu sync.Mutex
+	c20Late   = map[string]int{}
+)
+
 func c20Handler(w http.ResponseWriter, r *http.Request) {
 	// /c20/<phase>/<class><idx>
 	parts := strings.Split(strings.TrimPrefix(r.URL.Path, "/"), "/")
@@ -81,6 +86,16 @@ func c20Handler(w http.ResponseWriter, r *http.Request) {
 	h.Set("X-Key", key)
 	if strings.HasPrefix(key, "c") {
 		h.Set("Cache-Control", "max-age=1")
+	}
+	if strings.HasPrefix(key, "l") {
+		// becomes cacheable only after a few answers (while the key is in hit-for-pass)
+		c20LateMu.Lock()
+		c20Late[parts[1]+"/"+key]++
+		n := c20Late[parts[1]+"/"+key]
+		c20LateMu.Unlock()
+		if n > 2 {
+			h.Set("Cache-Control", "max-age=1")
+		}
 	}
 	h.Set("Etag", `"`+key+`"`)
 	if r.Header.Get("If-None-Match") == `"`+key+`"` {
@@ -174,6 +189,11 @@ func execC20(ph c20Phase) *vstat.Outcome {
 		class := "c"
 		if i*100/ph.Keys < ph.UncachePct {
 			class = "u"
+		} else if i%5 == 4 {
+			class = "l" // uncacheable at first, cacheable later
+		}
+		if i == 1 && ph.Keys >= 3 {
+			class = "l" // one of the two hot keys
 		}
 		keys[i] = fmt.Sprintf("%s%d", class, i)
 	}
